@@ -7,6 +7,7 @@
 -/
 import Proofs.C14_Search
 import Proofs.C14_Object
+import Proofs.C14_Counts
 import Proofs.C04
 import Mathlib.Data.List.Pairwise
 import Mathlib.Data.List.Perm.Basic
